@@ -235,11 +235,25 @@ pub struct EhHdrTableIter<'a, 'bases, R: Reader> {
 
 impl<'a, 'bases, R: Reader> EhHdrTableIter<'a, 'bases, R> {
     /// Yield the next entry in the `EhHdrTableIter`.
+    ///
+    /// If an error occurs while parsing the next entry, then this error is
+    /// returned as `Err(e)`, and all subsequent calls return `Ok(None)`.
     pub fn next(&mut self) -> Result<Option<(Pointer, Pointer)>> {
         if self.remain == 0 {
             return Ok(None);
         }
 
+        self.remain -= 1;
+        match self.parse_row() {
+            Ok(row) => Ok(Some(row)),
+            Err(e) => {
+                self.stop();
+                Err(e)
+            }
+        }
+    }
+
+    fn parse_row(&mut self) -> Result<(Pointer, Pointer)> {
         let parameters = PointerEncodingParameters {
             bases: &self.bases.eh_frame_hdr,
             func_base: None,
@@ -247,13 +261,29 @@ impl<'a, 'bases, R: Reader> EhHdrTableIter<'a, 'bases, R> {
             section: &self.hdr.section,
         };
 
-        self.remain -= 1;
         let from = parse_encoded_pointer(self.hdr.table_enc, &parameters, &mut self.table)?;
         let to = parse_encoded_pointer(self.hdr.table_enc, &parameters, &mut self.table)?;
-        Ok(Some((from, to)))
+        Ok((from, to))
     }
+
+    /// The table is shorter than its header claims, or cannot be decoded.
+    fn stop(&mut self) {
+        self.remain = 0;
+        self.table.empty();
+    }
+
     /// Yield the nth entry in the `EhHdrTableIter`
     pub fn nth(&mut self, n: usize) -> Result<Option<(Pointer, Pointer)>> {
+        match self.skip_rows(n) {
+            Ok(()) => self.next(),
+            Err(e) => {
+                self.stop();
+                Err(e)
+            }
+        }
+    }
+
+    fn skip_rows(&mut self, n: usize) -> Result<()> {
         use core::convert::TryFrom;
         let size = match self.hdr.table_enc.format() {
             constants::DW_EH_PE_sdata2 | constants::DW_EH_PE_udata2 => 2,
@@ -265,8 +295,8 @@ impl<'a, 'bases, R: Reader> EhHdrTableIter<'a, 'bases, R> {
         let row_size = size * 2;
         let n = u64::try_from(n).map_err(|_| Error::UnsupportedOffset)?;
         self.remain = self.remain.saturating_sub(n);
-        self.table.skip(R::Offset::from_u64(n * row_size)?)?;
-        self.next()
+        let len = n.checked_mul(row_size).ok_or(Error::UnsupportedOffset)?;
+        self.table.skip(R::Offset::from_u64(len)?)
     }
 }
 
